@@ -467,12 +467,17 @@ class GX:
         for k, v in L._keyword_map.items():
             if v == ttype:
                 return k
+        # string literals: the spelling depends on the position, so that forms with several pieces see an ordinary body, a body
+        # ending in an escaped quote and an empty body (the reference AST is computed from the same spellings)
+        _pre = {"STRING_LITERAL": "", "WSTRING_LITERAL": "L", "U8STRING_LITERAL": "u8", "U16STRING_LITERAL": "u", "U32STRING_LITERAL": "U"}
+        if ttype in _pre:
+            return _pre[ttype] + '"' + (f"s{n}", f"q{n}\\\"", "")[n % 3] + '"'
         table = {"ID": f"x{n}", "TYPEID": f"T{n}", "INT_CONST_DEC": f"{n + 1}", "INT_CONST_OCT": "017", "INT_CONST_HEX": "0x1F",
                  "INT_CONST_BIN": "0b101", "INT_CONST_CHAR": "'ab'", "FLOAT_CONST": "1.5", "HEX_FLOAT_CONST": "0x1.8p3",
                  "CHAR_CONST": "'a'", "WCHAR_CONST": "L'a'", "U8CHAR_CONST": "u8'a'", "U16CHAR_CONST": "u'a'",
                  "U32CHAR_CONST": "U'a'", "STRING_LITERAL": f'"s{n}"', "WSTRING_LITERAL": f'L"w{n}"',
                  "U8STRING_LITERAL": f'u8"w{n}"', "U16STRING_LITERAL": f'u"w{n}"', "U32STRING_LITERAL": f'U"w{n}"',
-                 "PPHASH": "#", "PPPRAGMA": "pragma", "PPPRAGMASTR": f"omp p{n}"}
+                 "PPHASH": "#", "PPPRAGMA": "pragma", "PPPRAGMASTR": f"omp  p{n} "}   # pragma text is verbatim: inner and trailing blanks
         return table.get(ttype, ttype.lower())
 
     def _token_classes(self) -> Dict[str, str]:
@@ -567,8 +572,11 @@ class GX:
                 if nt in self.g.first:
                     firsts.append(self.g.first[nt])
         rep, out = {}, []
+        # brackets and '#' are what the bracket obligation is ABOUT: each keeps a class of its own, also where the code under
+        # test does not mention it (a token consumed without being looked at may be any of them)
+        special = {"LPAREN", "RPAREN", "LBRACKET", "RBRACKET", "LBRACE", "RBRACE", "PPHASH"}
         for t in self.token_types:
-            sig = tuple([t in tb for tb in tables] + [t in consts and t] + [t in f for f in firsts])
+            sig = tuple([t in tb for tb in tables] + [t in consts and t] + [t in f for f in firsts] + [t in special and t])
             if sig not in rep:
                 rep[sig] = t
                 out.append(t)
@@ -803,7 +811,13 @@ class GX:
     # ---- structural comparison of results
     def ast_diff(self, got, exp, allowed_coords, path="result") -> Optional[str]:
         A = self.c_ast
-        if isinstance(exp, AnyInside) or got is exp:
+        if got is exp:
+            return None
+        if isinstance(exp, AnyInside):
+            # a bare coordinate value (e.g. the first-specifier coordinate returned next to a specifier list): any coordinate of
+            # the invocation, but a MISSING coordinate only where the reference says so (AnyInsideOrNone)
+            if got is None and not isinstance(exp, AnyInsideOrNone):
+                return f"{path}: no coordinate (must be a token inside the construct)"
             return None
         if isinstance(exp, self.Opaque) or isinstance(got, self.Opaque):
             return None if got is exp else f"{path}: expected {exp!r}, got {self._short(got)}"
@@ -910,9 +924,26 @@ class AStream:
 
 
 class FakeLexer:
-    def __init__(self, filename):
+    def __init__(self, filename="f.c", **callbacks):
         self.filename = filename
         self._filename = filename
+
+    def input(self, text, filename=""):
+        pass
+
+    def token(self):
+        return None
+
+
+def new_parser(gx):
+    """An instance of the real CParser whose fields are those its own __init__ creates (so that instance state added by a change
+    -- a memo, a counter -- exists), with a lexer that is never asked for tokens; falls back to a bare instance."""
+    try:
+        p = gx.CParser(lexer=lambda **kw: FakeLexer("f.c", **kw))
+    except Exception:
+        p = object.__new__(gx.CParser)
+    p.clex = FakeLexer("f.c")
+    return p
 
 
 class Run:
@@ -1029,8 +1060,7 @@ class Run:
         self.consumed_marks = set()
         own = gx.g.nts[self.root.nt].method
         self.root_is_self = (own == self.method)
-        p = object.__new__(gx.CParser)
-        p.clex = FakeLexer("f.c")
+        p = new_parser(gx)
         p._scope_stack = [dict() for _ in range(getattr(gx, "scope_depth", 1))]
         for t in self.toks:
             if t is not None and not hasattr(t, "mark") and t.type == "TYPEID":
@@ -1380,8 +1410,7 @@ class MayRun:
 
     def execute(self):
         gx = self.gx
-        p = object.__new__(gx.CParser)
-        p.clex = FakeLexer("f.c")
+        p = new_parser(gx)
         p._scope_stack = [dict()]
         p._tokens = WildStream(gx, self.script, self)
         self.parser = p
